@@ -100,6 +100,8 @@ PatchClauses(e) ==
      <<"AssembleReproduces", e.assembled = 1>>,
      <<"BlendAssembleTotal", e.blend # -1>>,                 \* blend_and_assemble() returns ...
      <<"BlendedReassemblyReproduces", e.blend # 0>>,          \* ... the base image (unmodified patches, weights sum to one)
+     <<"PatchUpdateTotal", e.update # -1>>,                    \* set_image(new, i, j) followed by assemble() returns ...
+     <<"PatchUpdateIsLocal", e.update # 0>>,                  \* ... the new interior in the patch's region, everything else untouched
      <<"LocalCornersAgree", LocalCornersAgree(e)>>,
      <<"CornersAgree", CornersAgree(e)>>,
      <<"CentresAgree", CentresAgree(e)>> >>
